@@ -66,9 +66,14 @@ termination_by l => l.length
 
 def showCount (x : String × Nat) : String := if x.2 > 1 then x.1 ++ "~n" ++ toString x.2 else x.1
 
+/-- for a subscriber whose stream stalled at its very first send (`pregate`): which response the
+sender was holding depends on the walk order, so only kinds are rendered -/
+def kindOnly (x : String × String × Nat) : String × String × Nat :=
+  (x.1, (x.2.1.take 1).toString, 0)
+
 /-- canonical form of a run of responses without sync: per key, the responses in order -/
-def renderSegment (seg : List (Resp × Bool)) : String :=
-  let kvs := seg.map respKV
+def renderSegment (kinds : Bool) (seg : List (Resp × Bool)) : String :=
+  let kvs := seg.map (fun r => if kinds && r.1 != Resp.sync then kindOnly (respKV r) else respKV r)
   let keys := sortStrs (kvs.map (·.1)).eraseDups
   bracket (keys.map (fun k => k ++ ":" ++
     ">".intercalate ((collapse ((kvs.filter (·.1 == k)).map (·.2))).map showCount)))
@@ -78,8 +83,11 @@ def splitSync : List (Resp × Bool) → List (Resp × Bool) → List (List (Resp
   | (.sync, _) :: r, cur => cur :: splitSync r []
   | x :: r, cur => splitSync r (cur ++ [x])
 
-def renderOut (out : List (Resp × Bool)) : String :=
-  " sync ".intercalate ((splitSync out []).map renderSegment)
+def renderOut (kinds : Bool) (out : List (Resp × Bool)) : String :=
+  if kinds then
+    renderSegment true (out.filter (·.1 != Resp.sync)) ++ " syncs=" ++
+      toString (out.filter (·.1 == Resp.sync)).length
+  else " sync ".intercalate ((splitSync out []).map (renderSegment false))
 
 def findSub (s : Sub.State) (id : String) : Option Subscriber := s.subs.find? (·.id == id)
 
@@ -91,7 +99,7 @@ def drainObs (s : Sub.State) (id : String) : Sub.State × String :=
       | some .ok => false
       | some _ => true
       | none => false
-    let obs := if bad then statusOf sub else renderOut sub.out ++ " " ++ statusOf sub
+    let obs := if bad then statusOf sub else renderOut (s.pregated.contains id) sub.out ++ " " ++ statusOf sub
     (Sub.updateSub s id (fun x => { x with out := [], gatedSinceDrain := x.gateShut }), obs)
 
 def step (st : St) (args : List String) : St × String × String :=
@@ -105,6 +113,7 @@ def step (st : St) (args : List String) : St × String × String :=
       let r := CA.exec s.cache rest
       let s' := Sub.feed { s with cache := r.1 } r.2.1
       dup ({ s := s' }, r.2.2)
+  | ["pregate", id] => dup ({ s := { s with pregated := decStr id :: s.pregated } }, "ok")
   | ["sub", id, acl, req] =>
       let s' := Sub.subscribe s (decStr id) (parseAcl acl) (parseReq req)
       dup ({ s := s' }, match findSub s' (decStr id) with
